@@ -186,8 +186,17 @@ def make_debiaser(name, cfg=None):
 class Run:
     """one instrumented call of the real `apply`"""
 
-    def __init__(self, name, cfg, inputs, times=None):
-        self.d = d = make_debiaser(name, cfg)
+    def __init__(self, name, cfg, inputs, times=None, deb=None):
+        if deb is None:
+            d = make_debiaser(name, cfg)
+        else:
+            # a later call of a session on ONE debiaser object: only the observation wrappers of the previous call are
+            # taken off again (instance attributes shadowing the methods); whatever state the code itself left on the
+            # object stays — that state is what the session cases are about
+            d = deb
+            for attr in ("apply_location", "_check_inputs_and_convert_if_possible", COMPUTE[name]):
+                d.__dict__.pop(attr, None)
+        self.d = d
         self.loc_calls = []
         self.compute_calls = 0
         self.converted = None
@@ -250,10 +259,11 @@ def wl(l):
     return "W " + (",".join(l) if l else "-")
 
 
-def check_case(name, recipes, res, lines, expect, problems, seed=0):
-    """run one malformation case; queue the model query; apply the property oracle"""
+def check_case(name, recipes, res, lines, expect, problems, seed=0, deb=None):
+    """run one malformation case; queue the model query; apply the property oracle
+    (deb: an already used debiaser object to run this call on — session cases — instead of a fresh one)"""
     vals, descs = build_inputs(recipes, seed)
-    run = Run(name, {"running_window_step_length": 31} if name == "ISIMIP" else None, vals)  # (ISIMIP's default step 1 is only slower)
+    run = Run(name, {"running_window_step_length": 31} if name == "ISIMIP" else None, vals, deb=deb)  # (ISIMIP's default step 1 is only slower)
     case = {"debiaser": name, "recipes": dict(zip(ARGS, recipes)), "data_seed": seed}
     nontrivial = any(r != "ok" for r in recipes)
     res.count((name,) + tuple(recipes), nontrivial,
@@ -352,9 +362,10 @@ def dates(n, start="1950-01-01"):
     return np.arange(np.datetime64(start), np.datetime64(start) + np.timedelta64(n, "D"))
 
 
-def check_time_case(name, cfg, deltas, res, lines, expect, problems, omit=(), nfut=None):
+def check_time_case(name, cfg, deltas, res, lines, expect, problems, omit=(), nfut=None, deb=None):
     """deltas: change of the length of (time_obs, time_cm_hist, time_cm_future) relative to the series;
-    omit: positions whose time array is not passed at all (then inferred by the code)"""
+    omit: positions whose time array is not passed at all (then inferred by the code);
+    deb: an already used debiaser object built with this cfg (session cases) instead of a fresh one"""
     omit = tuple([omit] if isinstance(omit, str) else (omit or ()))
     n = dict(N)
     if nfut:
@@ -366,7 +377,7 @@ def check_time_case(name, cfg, deltas, res, lines, expect, problems, omit=(), nf
     given = [None if a in omit else t for a, t in zip(ARGS, tl)]
     if name == "ISIMIP":
         cfg = {"running_window_step_length": 31, **cfg}  # (the default step 1 is only slower)
-    run = Run(name, cfg, vals, times)
+    run = Run(name, cfg, vals, times, deb=deb)
     rw = int(cfg.get("running_window_mode", False))
     yr = int(cfg.get("running_window_mode_over_years_of_cm_future", False))
     case = {"debiaser": name, "cfg": cfg, "series_lengths": [n[a] for a in ARGS], "time_lengths": given, "omitted": list(omit)}
@@ -455,6 +466,276 @@ def check_dispatch(name, lens, label, kw, with_times, res, lines, expect, proble
     expect.append(("outaxis", case, axis + " 1"))
 
 
+# ------------------------------------------------------------------ sessions: several apply calls on ONE debiaser object
+# Quantifier covered: "for every input" holds for EVERY CALL of apply, whatever the object was applied to before (a debiaser
+# is routinely re-used for several models / periods). All other cases construct a fresh debiaser per call, so state that the
+# code leaves on the object between calls (a "checked once" flag, cached time information, a remembered conversion …) was
+# invisible. A session runs a scripted / random sequence of calls — accepted, rejected for its time arrays, rejected for a
+# malformed array, accepted with conversions — on one object and judges every call with the same per-call oracle
+# (and the same stateless model) as a call on a fresh object.
+def full_cfg(name, cfg):
+    """the configuration a session's debiaser object is built with (coarser window steps: the defaults are only slower)"""
+    if name == "ISIMIP":
+        return {"running_window_step_length": 31, **cfg}
+    if cfg.get("running_window_mode"):
+        return {"running_window_length": 91, "running_window_step_length": 91, **cfg}
+    return dict(cfg)
+
+
+def run_time_case(name, cfg, deltas, res, lines, expect, problems, omit=(), nfut=None, deb=None):
+    k0 = len(expect)
+    flags = check_time_case(name, cfg, deltas, res, lines, expect, problems, omit=omit, nfut=nfut, deb=deb)
+    expect[k0 + 1] = ("consumes", expect[k0 + 1][1], flags)
+    expect[k0 + 2] = ("consumes-from-sites", expect[k0 + 2][1], flags)
+
+
+def session_scripts(name, rng, n_random):
+    """call sequences (JSON-serialisable steps) for one debiaser object"""
+    def t(states):
+        return {"kind": "time", "deltas": [rng.choice((-1, 1)) if st == "wrong" else 0 for st in states],
+                "omit": [a for a, st in zip(ARGS, states) if st == "omitted"], "nfut": None}
+
+    def c(recipe):
+        rec = ["ok", "ok", "ok"]
+        rec[rng.randrange(3)] = recipe
+        return {"kind": "case", "recipes": rec, "data_seed": rng.randint(0, 5)}
+
+    def wrong(pos, others=("ok",)):
+        st = [rng.choice(others) for _ in range(3)]
+        st[pos] = "wrong"
+        return st
+
+    rejected = ["list", "none", "2d", "4d", "spatial_2x3", "spatial_1x2"]
+    converted = ["int", "masked_cells", "masked_int_cells", "too_high", "nan", "nan_and_too_high"]
+    order = [0, 1, 2]
+    rng.shuffle(order)
+    scripts = [
+        # accepted with all dates given, then each position wrong in turn, malformed arrays in between, accepted again
+        [t(["ok"] * 3), t(wrong(order[0])), t([rng.choice(("ok", "omitted")) for _ in range(3)]), t(wrong(order[1])), c(rng.choice(rejected)),
+         t(wrong(order[2])), c(rng.choice(converted)), t(["ok"] * 3)],
+        # first call without any dates (inferred), then wrong arrays while others are given / omitted; rejected first, accepted after
+        [t(["omitted"] * 3), t(wrong(order[2], ("ok", "omitted"))), c(rng.choice(converted)), t(wrong(order[0], ("ok", "omitted"))),
+         c(rng.choice(rejected)), t(wrong(order[1], ("ok", "omitted"))), c("ok")],
+        # the very first call is rejected (nothing was ever accepted on this object)
+        [t(wrong(rng.randrange(3))), t(["ok"] * 3), c(rng.choice(rejected)), t(wrong(rng.randrange(3)))],
+    ]
+    for _ in range(n_random):
+        steps = []
+        for _ in range(rng.randint(3, 6)):
+            if rng.random() < 0.6:
+                steps.append(t([rng.choice(("ok", "ok", "wrong", "omitted")) for _ in range(3)]))
+            else:
+                steps.append(c(rng.choice(rejected + converted + ["ok", "float32", "masked_none"])))
+        scripts.append(steps)
+    return scripts
+
+
+def check_session(name, cfg, steps, res, lines, expect, problems):
+    """run `steps` as consecutive apply calls on one debiaser object; every call is judged on its own"""
+    d = make_debiaser(name, full_cfg(name, cfg))
+    res.count(("session", name, tuple(sorted(cfg.items())), repr(steps)), True,
+              sample={"debiaser": name, "cfg": cfg, "session_calls": steps} if len(res.distinct) % 53 == 11 else None)
+    res.extra["sessions"] = res.extra.get("sessions", 0) + 1
+    for i, st in enumerate(steps):
+        local = []
+        if st["kind"] == "case":
+            check_case(name, list(st["recipes"]), res, lines, expect, local, seed=st.get("data_seed", 0), deb=d)
+        else:
+            run_time_case(name, cfg, tuple(st["deltas"]), res, lines, expect, local, omit=tuple(st.get("omit") or ()), nfut=st.get("nfut"), deb=d)
+        res.extra["session_calls"] = res.extra.get("session_calls", 0) + 1
+        for p, case, sig in local:
+            problems.append((f"call {i + 1} of a sequence of apply calls on one debiaser object: {p}",
+                             {"debiaser": name, "session": {"cfg": cfg, "calls": steps[:i + 1]}, "failing_call": i + 1, "call": case,
+                              "observed": case.get("observed")},
+                             {**sig, "what": "session:" + str(sig.get("what"))}))
+
+
+# ------------------------------------------------------------------ construction paths x variables (range / NaN warnings)
+# Quantifier covered: "all eight debiasers" in every CONFIGURATION a debiaser for a variable can be constructed in — every
+# variable a class has (experimental) default settings for, `from_variable` given the name / the upper-case name / the Variable
+# object, with every attrs field restated explicitly as a keyword (this walks every keyword-dependent branch of the
+# `from_variable` overrides, e.g. QuantileDeltaMapping's detour through `for_precipitation`), with the range overridden by
+# keyword, and `for_precipitation` where it exists. All other cases use `from_variable("tas")` only. Judged: values outside the
+# reasonable physical range OF THAT VARIABLE (or NaN / inf) in obs / cm_hist / cm_future or in the output produce the warning —
+# far outside, one ulp outside, a units slip (x 86400), combined with NaN / -inf. `apply_location` is replaced by a pass-through
+# on the instance (the numerics of twelve variables are not this property's matter; the clause lives in `apply` around the map).
+VALUE_KINDS = ["above_far", "below_far", "above_ulp", "below_ulp", "units_x86400", "nan_and_above", "neg_inf_and_below"]
+
+
+def variable_range(var):
+    from ibicus import variables as V
+
+    r = V.str_to_variable_class[var].reasonable_physical_range
+    return None if r is None else [float(r[0]), float(r[1])]
+
+
+def constructible():
+    """{debiaser: [variables from_variable accepts]} and {debiaser: [restatable attrs fields]}, measured on the current tree"""
+    import attrs
+    import ibicus.debias as D
+    from ibicus import variables as V
+
+    sup, fields = {}, {}
+    for name in DEBS:
+        cls = getattr(D, name)
+        sup[name] = []
+        for var in V.str_to_variable_class:
+            try:
+                with warnings.catch_warnings():
+                    warnings.simplefilter("ignore")
+                    cls.from_variable(var)
+                sup[name].append(var)
+            except Exception:  # noqa: BLE001  (no default settings for this variable: not constructible this way)
+                pass
+        fields[name] = [f.name for f in attrs.fields(cls) if f.name not in ("variable", "reasonable_physical_range")]
+    return sup, fields
+
+
+def construct(name, var, path):
+    import ibicus.debias as D
+    from ibicus import variables as V
+
+    cls = getattr(D, name)
+    with warnings.catch_warnings():
+        warnings.simplefilter("ignore")
+        if path["via"] == "for_precipitation":
+            return cls.for_precipitation()
+        arg = {"str": var, "upper": var.upper(), "object": V.str_to_variable_class[var]}[path.get("arg", "str")]
+        kw = {}
+        if path.get("restate"):
+            kw[path["restate"]] = getattr(cls.from_variable(var), path["restate"])  # the value the default construction has, stated explicitly
+        if path.get("range_override"):
+            kw["reasonable_physical_range"] = [float(x) for x in path["range_override"]]
+        path["_keywords"] = {k: repr(v)[:80] for k, v in kw.items()}  # for the replay file only
+        return cls.from_variable(arg, **kw)
+
+
+def construction_values(rg, pos, kind, data_seed):
+    lo, hi = rg if rg is not None else (0.0, 1.0)
+    w = hi - lo
+    r = np.random.RandomState(77 + data_seed)
+    vals = [lo + w * (0.3 + 0.4 * r.rand(N[a], 2, 2)) for a in ARGS]
+    x = vals[pos]
+    if kind == "above_far":
+        x[3, 1, 1] = hi + w
+    elif kind == "below_far":
+        x[3, 1, 1] = lo - w
+    elif kind == "above_ulp":
+        x[3, 1, 1] = np.nextafter(hi, np.inf)
+    elif kind == "below_ulp":
+        x[3, 1, 1] = np.nextafter(lo, -np.inf)
+    elif kind == "units_x86400":
+        vals[pos] = x * 86400.0
+    elif kind == "nan_and_above":
+        x[3, 1, 1] = np.nan
+        x[4, 0, 0] = hi + 0.5 * w
+    elif kind == "neg_inf_and_below":
+        x[3, 1, 1] = -np.inf
+        x[4, 0, 0] = lo - 0.5 * w
+    elif kind == "nan":
+        x[3, 1, 1] = np.nan
+    elif kind == "at_bounds":  # the bounds themselves are inside the range: nothing is demanded
+        x[3, 1, 1] = lo
+        x[4, 0, 0] = hi
+    elif kind != "clean":
+        raise ValueError(kind)
+    return vals
+
+
+def flags_of(a, rg):
+    """(non-finite present, finite value outside rg present) — harness-side numpy only"""
+    a = np.asarray(a, dtype=float)
+    fin = np.isfinite(a)
+    return bool((~fin).any()), bool(rg is not None and ((a[fin] < rg[0]) | (a[fin] > rg[1])).any())
+
+
+def check_construction(name, var, path, pos, kind, res, problems, data_seed=0):
+    path = {k: v for k, v in path.items() if not k.startswith("_")}
+    case = {"debiaser": name, "construction": {"variable": var, **path}, "position": ARGS[pos], "value_kind": kind, "data_seed": data_seed}
+    try:
+        p2 = dict(path)
+        d = construct(name, var, p2)
+        case["keywords_passed"] = p2.get("_keywords", {})
+    except Exception as ex:  # noqa: BLE001  (which keyword combinations construct at all is C15's matter; counted)
+        res.extra["construction_paths_not_constructing"] = res.extra.get("construction_paths_not_constructing", 0) + 1
+        res.extra.setdefault("construction_paths_not_constructing_first", f"{name} {var} {path}: {type(ex).__name__}: {str(ex)[:80]}")
+        return
+    declared = getattr(d, "reasonable_physical_range", None)
+    if path.get("range_override"):
+        rg = [float(x) for x in path["range_override"]]
+    elif path["via"] == "for_precipitation":
+        rg = None if declared is None else [float(declared[0]), float(declared[1])]  # no variable is named by the caller: the range the object declares
+        if declared is None:
+            res.extra.setdefault("constructors_without_declared_range", [])
+            if f"{name}.for_precipitation" not in res.extra["constructors_without_declared_range"]:
+                res.extra["constructors_without_declared_range"].append(f"{name}.for_precipitation")
+    else:
+        rg = variable_range(var)
+    vals = construction_values(rg, pos, kind, data_seed)
+    demanding = kind not in ("clean", "at_bounds")
+    res.count(("construction", name, var, tuple(sorted((k, str(v)) for k, v in path.items())), pos, kind), demanding,
+              sample=case if demanding and len(res.distinct) % 211 == 17 else None)
+    res.extra["construction_cases"] = res.extra.get("construction_cases", 0) + 1
+    out_axis = 0 if name == "DeltaChange" else 2
+    d.apply_location = lambda obs, cm_hist, cm_future, **kw: np.array((obs, cm_hist, cm_future)[out_axis], dtype=float, copy=True)
+    exc = out = None
+    with warnings.catch_warnings(record=True) as ws:
+        warnings.simplefilter("always")
+        old = np.seterr(all="ignore")
+        try:
+            out = d.apply(vals[0], vals[1], vals[2], progressbar=False)
+        except Exception as ex:  # noqa: BLE001
+            exc = ex
+        finally:
+            np.seterr(**old)
+    inp, outw, _ = classify_warnings(ws)
+    observed = (f"{type(exc).__name__}: {str(exc)[:100]}" if exc is not None else wl(inp) + " | " + wl(outw)) + f" (range the object declares: {declared})"
+
+    def bad(p, what):
+        problems.append((p, {**case, "range_of_variable": rg, "observed": observed}, {"what": "construction:" + what}))
+
+    how = f"[{var} via {path['via']}" + "".join(f", {k}={v}" for k, v in path.items() if k != "via") + "]"
+    if exc is not None:
+        bad(f"{how} well-formed 3-dimensional float input rejected: {type(exc).__name__}: {str(exc)[:100]}", "wellformed_rejected")
+        return
+    for k, a in enumerate(ARGS):
+        nonfin, oor = flags_of(vals[k], rg)
+        if nonfin and f"infNan:{a}:0" not in inp:
+            bad(f"{how} {a}: NaN/inf in the input accepted silently", "silent_nan")
+        if oor and f"outOfRange:{a}:0" not in inp:
+            bad(f"{how} {a}: values outside the reasonable physical range {rg} of the variable accepted silently ({kind})", "silent_range")
+    nonfin, oor = flags_of(out, rg)
+    if nonfin and "infNan:output:0" not in outw:
+        bad(f"{how} NaN/inf in the output produced no warning", "silent_output_nan")
+    if oor and "outOfRange:output:0" not in outw:
+        bad(f"{how} values outside the reasonable physical range {rg} of the variable in the output produced no warning ({kind})", "silent_output_range")
+
+
+def construction_matrix(rng, tier):
+    """[(debiaser, variable, path, position, value kind, data seed)]"""
+    import ibicus.debias as D
+
+    sup, fields = constructible()
+    todo = []
+    k = rng.randrange(21)
+    for name in DEBS:
+        for var in sup[name]:
+            rg = variable_range(var) or [0.0, 1.0]
+            w = rg[1] - rg[0]
+            paths = [dict(via="from_variable", arg="str"), dict(via="from_variable", arg="upper"), dict(via="from_variable", arg="object"),
+                     dict(via="from_variable", arg="str", range_override=[rg[0] + 0.25 * w, rg[0] + 0.75 * w])]
+            paths += [dict(via="from_variable", arg=rng.choice(("str", "object")), restate=f) for f in fields[name]]
+            if var == "pr" and hasattr(getattr(D, name), "for_precipitation"):
+                paths.append(dict(via="for_precipitation"))
+            for path in paths:
+                for rep in range(3 if tier == "thorough" else 1):
+                    todo.append((name, var, path, (k + rep) % 3, VALUE_KINDS[k % len(VALUE_KINDS)], rng.randint(0, 3)))
+                k += 1
+            todo.append((name, var, paths[0], rng.randrange(3), "nan", 0))
+            todo.append((name, var, paths[0], rng.randrange(3), "at_bounds", 0))
+    return todo
+
+
 # ------------------------------------------------------------------ the check
 def run(tier, res, force_search=False):
     logging.getLogger("ibicus").setLevel(logging.CRITICAL)
@@ -463,12 +744,19 @@ def run(tier, res, force_search=False):
                 f"{len(RECIPES)} array kinds (clean / non-ndarray / dtype / ndim / spatial shape / NaN / inf / range / masked variants): the full matrix "
                 "argument position x single malformation x 8 debiasers, plus seeded pairs and triples of malformations; and the time-array matrix "
                 "(debiaser x window configuration x every combination of {given right, given wrong length +-1, omitted} over the three time arrays); and the accept side: well-formed input with three different time lengths through every dispatch path "
-                "(serial / parallel with 1 and 2 processes / failsafe / progress bar, with and without dates). Non-trivial = at least one "
+                "(serial / parallel with 1 and 2 processes / failsafe / progress bar, with and without dates); and sessions: scripted and seeded sequences of "
+                "such calls (accepted / wrong time array / malformed array / converted) on ONE debiaser object per window configuration, every call judged as on a "
+                "fresh object; and the construction matrix: debiaser x every variable it has default settings for x construction path (from_variable with the name / "
+                "upper-case name / Variable object, every attrs field restated as keyword, the range overridden by keyword, for_precipitation) x argument position x "
+                "out-of-range value kind (far / one ulp outside, units slip, with NaN / -inf) judged against the range of that variable. Non-trivial = at least one "
                 "malformed argument / mismatching time array; distinct = distinct (debiaser, recipes) or (debiaser, configuration, deltas) tuples")
     res.trusted = C.BASE_TRUSTED + [
         "translator/extract_contract.py (AST -> step list / helper texts / order facts); the meaning of each helper predicate is its numpy meaning "
         "(isinstance, np.issubdtype, ndim, shape, np.isnan/isinf, masked-array ufunc semantics), validated by the correspondence only",
         "the instrumentation wraps apply_location, _check_inputs_and_convert_if_possible and the per-window computation on the instance (observation only)",
+        "construction-matrix cases only: apply_location is REPLACED on the instance by a pass-through (copy of cm_future / of obs for DeltaChange), so that "
+        "only the contract part of apply (input checks, map over locations, output checks) runs for the twelve variables; the range of a variable is read "
+        "from ibicus.variables",
     ]
     res.assumptions = ["RUNTIME-ONLY clauses (decided by the oracle on the real code, no theorem): the *values* after conversion "
                        "(astype(float), MaskedArray.filled(nan): NaN exactly at the masked cells, other cells unchanged), the result's numpy dtype, "
@@ -555,6 +843,19 @@ def run(tier, res, force_search=False):
                        res, lines, expect, problems)
         check_dispatch(name, triples[rng.randrange(2)], "serial+progressbar", dict(progressbar=True), True, res, lines, expect, problems)
 
+    # ---- sessions: call sequences on one debiaser object (every call judged like a call on a fresh object)
+    n_random = 1 if tier == "quick" else 6
+    if force_search or not lean_ok:
+        n_random *= 3
+    for name in DEBS:
+        for cfg in time_configs(name):
+            for steps in session_scripts(name, rng, n_random):
+                check_session(name, cfg, steps, res, lines, expect, problems)
+
+    # ---- construction paths x variables: the range / NaN warnings with the range of the variable the debiaser was built for
+    for name, var, path, pos, kind, ds in construction_matrix(rng, tier):
+        check_construction(name, var, path, pos, kind, res, problems, data_seed=ds)
+
     mismatches = []
     try:
         out = C.run_driver("DrvContract", lines)
@@ -591,7 +892,13 @@ def replay(data):
         return 1
     res = C.Result(PROP, "quick")
     lines, expect, problems = [], [], []
-    if "dispatch" in fi:
+    if "session" in fi:
+        check_session(fi["debiaser"], fi["session"]["cfg"], fi["session"]["calls"], res, lines, expect, problems)
+    elif "construction" in fi:
+        path = {k: v for k, v in fi["construction"].items() if not k.startswith("_")}
+        var = path.pop("variable")
+        check_construction(fi["debiaser"], var, path, ARGS.index(fi["position"]), fi["value_kind"], res, problems, data_seed=fi.get("data_seed", 0))
+    elif "dispatch" in fi:
         check_dispatch(fi["debiaser"], tuple(fi["series_lengths"]), fi["dispatch"], fi["apply_kwargs"], fi.get("time_arrays") == "given, matching",
                        res, lines, expect, problems)
     elif "recipes" in fi:
